@@ -14,51 +14,37 @@ Definition bytes256 (H : bytes -> bytes) : Prop := forall x, Forall (fun b => b 
 (* the honest client (SHA1(pw) XOR SHA1(salt ++ SHA1(SHA1(pw)))) is accepted against the string CREATE USER stores *)
 Theorem C40_honest_client_accepted :
   forall H, len20 H -> bytes256 H -> forall salt pw, pw <> [] ->
-    validate H (client_response H salt pw) salt (stored_auth H pw) = Ret true.
+    validate H (client_response H salt pw) salt (stored_auth H pw) = true.
 Proof. exact honest_client_accepted. Qed.
 Print Assumptions C40_honest_client_accepted.
 
-(* for every response of at least digest length: accepted iff the stored string decodes to a hash and
-   H (first 20 response bytes XOR H(salt ++ hash)) = hash *)
+(* for EVERY response (any length): accepted iff it has at least 20 bytes, the stored string decodes to a hash and
+   H (first 20 response bytes XOR H(salt ++ hash)) = hash.  Bytes beyond the 20th are ignored, as in the code: an
+   oversized response is judged on its first 20 bytes. *)
 Theorem C40_accept_iff :
-  forall H, len20 H -> forall resp salt auth, (20 <= length resp)%nat ->
-    (validate H resp salt auth = Ret true <->
-     auth <> [] /\ exists hash, hex_decode (strip_star auth) = Some hash /\
-                                H (xor_bytes (H (salt ++ hash)) (firstn 20 resp)) = hash).
+  forall H, len20 H -> forall resp salt auth,
+    validate H resp salt auth = true <->
+    auth <> [] /\ (20 <= length resp)%nat /\
+    exists hash, hex_decode (strip_star auth) = Some hash /\
+                 H (xor_bytes (H (salt ++ hash)) (firstn 20 resp)) = hash.
 Proof. exact validate_accept_iff. Qed.
 Print Assumptions C40_accept_iff.
 
 (* for a 20-byte response: accepted iff the client exhibited a preimage of the stored hash under the scramble *)
 Theorem C40_accept_iff_client_knows_preimage :
   forall H, len20 H -> forall resp salt auth, length resp = 20%nat ->
-    (validate H resp salt auth = Ret true <->
+    (validate H resp salt auth = true <->
      auth <> [] /\ exists hash stage1, hex_decode (strip_star auth) = Some hash /\ length stage1 = 20%nat /\
                                        H stage1 = hash /\ resp = xor_bytes stage1 (H (salt ++ hash))).
 Proof. exact validate_accept_preimage. Qed.
 Print Assumptions C40_accept_iff_client_knows_preimage.
 
-(* "malformed credentials are rejected" is FALSE of the code as it is: a non-empty response shorter than the
-   digest is not rejected (the function indexes out of range) *)
-Theorem C40_malformed_response_rejected_refuted :
-  forall H, len20 H ->
-    exists resp salt auth, resp <> [] /\ (length resp < 20)%nat /\ validate H resp salt auth <> Ret false.
-Proof. exact validate_malformed_rejected_refuted. Qed.
-Print Assumptions C40_malformed_response_rejected_refuted.
-
-(* exactly which inputs hit the defect *)
-Theorem C40_short_response_panics :
-  forall H, len20 H -> forall resp salt auth hash,
-    resp <> [] -> (length resp < 20)%nat -> auth <> [] -> hex_decode (strip_star auth) = Some hash ->
-    validate H resp salt auth = Panic.
-Proof. exact validate_short_response_panics. Qed.
-Print Assumptions C40_short_response_panics.
-
-(* what does hold: with the length guard every call returns a verdict *)
-Theorem C40_wellformed_response_gets_verdict :
-  forall H, len20 H -> forall resp salt auth,
-    resp = [] \/ (20 <= length resp)%nat -> exists b, validate H resp salt auth = Ret b.
-Proof. exact validate_total_on_wellformed. Qed.
-Print Assumptions C40_wellformed_response_gets_verdict.
+(* malformed credentials are rejected: every response shorter than the digest gets the verdict false (the function is
+   total: since a87f03e51 the length guard precedes the XOR loop) *)
+Theorem C40_malformed_response_rejected :
+  forall H, len20 H -> forall resp salt auth, (length resp < 20)%nat -> validate H resp salt auth = false.
+Proof. exact validate_short_response_rejected. Qed.
+Print Assumptions C40_malformed_response_rejected.
 
 (* host patterns: the regexp built by matchesHostPattern means "'%' = any run of non-newline bytes, rest literal" *)
 Theorem C40_host_pattern_meaning : forall p h, glob p h = true <-> gmatch p h.
@@ -125,20 +111,19 @@ Theorem C40_empty_password_rule :
 Proof. exact login_empty_password_rule. Qed.
 Print Assumptions C40_empty_password_rule.
 
-(* wrong or missing credentials of well-formed length are rejected (never a crash) *)
-Theorem C40_wrong_or_missing_credentials_rejected :
-  forall H, len20 H -> forall users name host salt resp u,
-    get_user users name host = Some u -> resp = [] \/ (20 <= length resp)%nat ->
-    ~ credentials_ok H u salt resp -> login H true users name host salt resp = Deny.
-Proof. exact login_wrong_or_missing_rejected. Qed.
-Print Assumptions C40_wrong_or_missing_credentials_rejected.
+(* wrong, missing or malformed credentials are rejected: whenever the credentials are not valid for the selected account *)
+Theorem C40_invalid_credentials_rejected :
+  forall H users name host salt resp u,
+    get_user users name host = Some u -> ~ credentials_ok H u salt resp ->
+    login H true users name host salt resp = Deny.
+Proof. exact login_invalid_credentials_rejected. Qed.
+Print Assumptions C40_invalid_credentials_rejected.
 
-Theorem C40_login_malformed_rejected_refuted :
-  forall H, len20 H ->
-    exists users name host salt resp,
-      resp <> [] /\ (length resp < 20)%nat /\ login H true users name host salt resp = LPanic.
-Proof. exact login_malformed_rejected_refuted. Qed.
-Print Assumptions C40_login_malformed_rejected_refuted.
+Theorem C40_login_malformed_response_rejected :
+  forall H, len20 H -> forall users name host salt resp,
+    resp <> [] -> (length resp < 20)%nat -> login H true users name host salt resp = Deny.
+Proof. exact login_malformed_response_rejected. Qed.
+Print Assumptions C40_login_malformed_response_rejected.
 
 Theorem C40_login_honest_client_accepted :
   forall H, len20 H -> bytes256 H -> forall users name host salt pw u,
@@ -152,7 +137,8 @@ Theorem C40_sha1_meets_the_premises : len20 sha1 /\ bytes256 sha1.
 Proof. split; [exact sha1_length|exact sha1_bytes]. Qed.
 Print Assumptions C40_sha1_meets_the_premises.
 
-(* non-vacuity: a concrete account table and login (with SHA-1) that is accepted, one rejected, one that panics *)
+(* non-vacuity: a concrete account table and login (with SHA-1) that is accepted, and wrong password / non-matching host /
+   truncated response / oversized response with an honest prefix (accepted on its first 20 bytes) *)
 Example C40_nonvacuous :
   let pw := [112;119] in
   let u := mkUser [117] [49;48;46;37] (stored_auth sha1 pw) false s_native in
@@ -160,5 +146,7 @@ Example C40_nonvacuous :
   login sha1 true [u] [117] [49;48;46;48;46;48;46;53] salt (client_response sha1 salt pw) = Accept [117] [49;48;46;37]
   /\ login sha1 true [u] [117] [49;48;46;48;46;48;46;53] salt (client_response sha1 salt [112;120]) = Deny
   /\ login sha1 true [u] [117] [49;49;46;48;46;48;46;53] salt (client_response sha1 salt pw) = Deny
-  /\ login sha1 true [u] [117] [49;48;46;48;46;48;46;53] salt [1;2;3] = LPanic.
+  /\ login sha1 true [u] [117] [49;48;46;48;46;48;46;53] salt [1;2;3] = Deny
+  /\ login sha1 true [u] [117] [49;48;46;48;46;48;46;53] salt (firstn 19 (client_response sha1 salt pw)) = Deny
+  /\ login sha1 true [u] [117] [49;48;46;48;46;48;46;53] salt (client_response sha1 salt pw ++ [7]) = Accept [117] [49;48;46;37].
 Proof. vm_compute. repeat split. Qed.
